@@ -179,7 +179,8 @@ Fixpoint greedy_ok (c : scase) (asg : list (list Z)) (kept : list softitem) (res
               | _ => false
               end) asg)
       && greedy_ok c asg kept t
-    | None => greedy_ok c asg kept t
+    | None => true       (* undefined at the returned values (a division by zero): the solver may count it as honoured -
+                            no verdict on the constraints of lower priority *)
     end
   end.
 Definition soft_values_ok (c : scase) : bool :=
